@@ -50,7 +50,9 @@ Definition check_atom (o : obs_graph) (k : Z) (a : attrs) : nat :=
   | None => 0%nat
   | Some val =>
       let adj := oadj o k in
-      let heavy := filter (fun p => negb (o_isH o (fst p))) adj in
+      (* bonds to OTHER non-hydrogen atoms: an entry of the atom for itself (self-loop) is no bond of the molecule;
+         it is reported by [self_loops] *)
+      let heavy := filter (fun p => negb (o_isH o (fst p)) && negb (Z.eqb (fst p) k)) adj in
       let hs := filter (fun p => o_isH o (fst p)) adj in
       let b2 := sum_half heavy in
       if 2 * max_list val <? b2 then 0%nat else
@@ -119,7 +121,11 @@ Definition check_explicit (final : list (Z * attrs)) (a : attrs) : nat :=
 Definition explicit_kept (before final : list (Z * attrs)) : nat :=
   first_fail (map (fun p => check_explicit final (snd p)) before).
 
+(** 7 = an atom is its own neighbour *)
+Definition self_loops (o : obs_graph) : bool :=
+  existsb (fun p => existsb (fun q => Z.eqb (fst q) (fst p)) (oadj o (fst p))) (fst o).
 Definition holds_C09 (before : list (Z * attrs)) (final : obs_graph) : nat :=
+  if self_loops final then 7%nat else
   match first_fail (map (fun p => check_atom final (fst p) (snd p)) (fst final)) with
   | 0%nat =>
       match first_fail (map (fun p => check_h final (fst p) (snd p)) (fst final)) with
